@@ -17,6 +17,12 @@ CHECKS["C02"] = ("respondent-level eligibility oracle vs. per-cell bases, margin
 CHECKS["C03"] = ("oracle + defining relations (count/base, x100, sums to one over hidden-included base elements) on generated surveys",
     "Generated-input search: proportions vs public count/base and vs respondent-level count/base, NaN iff zero base, [0,1] bound, percentages, sums to one with hidden elements read from an un-hidden reference run, margin proportions. One known finding (2-D margin-proportion fallback) is excluded by signature and reported.",
     "Difference cells are left to C04; numpy warnings not escalated.", "6 C03")
+CHECKS["C07"] = ("constructive order specification vs. row_order/column_order (signed + ins_N), labels and codes; Hypothesis + exhaustive enumeration of small dimensions",
+    "Generated-input search plus bounded exhaustive enumeration: random dimensions/insertions/anchors/explicit lists/hidden+pruned sets on slices and strands, and (thorough) every small configuration (n<=3, <=2 insertions, all anchor spellings, all explicit lists up to n+1, all hidden subsets) are compared with an executable specification of the statement. Three genuine defects found and fixed (see known_findings.json).",
+    "Specification transcribed from the statement; emptiness taken from the C09 oracle; derived MR items under explicit order not yet generated.", "6 C07")
+CHECKS["C09"] = ("respondent-level emptiness oracle vs. displayed element/subtotal sets (Hypothesis)",
+    "Generated-input search with zero-heavy and fractional weights, never-selected / never-shown items and all hide/prune combinations on 2-D, 3-D and 1-D partitions; displayed sets, shape, is_empty and labels are compared with 'visible iff not hidden and not (prune and empty by unweighted eligibility)' and the subtotal rule.",
+    "Emptiness rule is the statement's (MR: selected+not-selected, except MR x MR).", "6 C09")
 NOT_BUILT = {}
 
 def main():
